@@ -50,6 +50,40 @@ def inline_locals(fn, node, depth=3):
     return sorted(factors(node, depth))
 
 
+def rule_VA5(ctx, rule):
+    mp = ctx.repo.mod(MAPS)
+    # VA5
+    adj = mp.func('_interp_volume_average_adj')
+    ap = au.params(adj)
+    b = require(ctx, rule, '_interp_volume_average_adj operator',
+                f'_P_ = discretize.utils.volume_average({ap[1]}, {ap[3]})',
+                adj, 'transpose operator is not the volume average from the '
+                'old to the new grid', ctx.where(mp, adj))
+    if b:
+        P = b['_P_']
+        for k in range(3):
+            require(ctx, rule, f'_interp_volume_average_adj '
+                    f'component {k}', f'{ap[0]}[{k}, ...] += ({P}.T * '
+                    f"{ap[2]}[{k}, ...].ravel('F')).reshape(_s_, order='F')",
+                    adj, f'component {k} is not brought back with the '
+                    'transposed operator', ctx.where(mp, adj))
+    sm = ctx.repo.mod(SIMS)
+    g = [m for m in sm.methods('Simulation', 'gradient')
+         if 'property' in au.decorator_names(m)][0]
+    cs = au.calls(g, 'maps._interp_volume_average_adj')
+    ctx.anchor(len(cs) == 1, '_interp_volume_average_adj call in gradient')
+    kws = {k.arg: ast.unparse(k.value) for k in cs[0].keywords}
+    gf = find('maps.interp_edges_to_vol_averages(ex=_g_.fx, ey=__, ez=__, '
+              'volumes=__, ox=_grad_[0, ...], oy=__, oz=__)', g)
+    ok = bool(gf) and kws == {ap[0]: 'gradient', ap[1]: 'self.model.grid',
+                              ap[2]: gf[0][1]['_grad_'],
+                              ap[3]: gf[0][1]['_g_'] + '.grid'}
+    ctx.check(rule, 'gradient -> _interp_volume_average_adj',
+              ok, f'arguments {kws} do not map the gradient on the '
+              'computational grid back to the model grid',
+              ctx.where(sm, cs[0]))
+
+
 def run(ctx):
     ctx.explanation = (
         'Flag/guard pairing and kernel shape of the volume-average path are '
@@ -226,34 +260,5 @@ def run(ctx):
               '(nearest fill)', len(clamp) == 2, 'cell indices are not '
               'clamped to the grid (nearest values outside the source grid)',
               ctx.where(mp, vw))
-    # VA5
-    adj = mp.func('_interp_volume_average_adj')
-    ap = au.params(adj)
-    b = require(ctx, 'C15.VA5.adjoint', '_interp_volume_average_adj operator',
-                f'_P_ = discretize.utils.volume_average({ap[1]}, {ap[3]})',
-                adj, 'transpose operator is not the volume average from the '
-                'old to the new grid', ctx.where(mp, adj))
-    if b:
-        P = b['_P_']
-        for k in range(3):
-            require(ctx, 'C15.VA5.adjoint', f'_interp_volume_average_adj '
-                    f'component {k}', f'{ap[0]}[{k}, ...] += ({P}.T * '
-                    f"{ap[2]}[{k}, ...].ravel('F')).reshape(_s_, order='F')",
-                    adj, f'component {k} is not brought back with the '
-                    'transposed operator', ctx.where(mp, adj))
-    sm = ctx.repo.mod(SIMS)
-    g = [m for m in sm.methods('Simulation', 'gradient')
-         if 'property' in au.decorator_names(m)][0]
-    cs = au.calls(g, 'maps._interp_volume_average_adj')
-    ctx.anchor(len(cs) == 1, '_interp_volume_average_adj call in gradient')
-    kws = {k.arg: ast.unparse(k.value) for k in cs[0].keywords}
-    gf = find('maps.interp_edges_to_vol_averages(ex=_g_.fx, ey=__, ez=__, '
-              'volumes=__, ox=_grad_[0, ...], oy=__, oz=__)', g)
-    ok = bool(gf) and kws == {ap[0]: 'gradient', ap[1]: 'self.model.grid',
-                              ap[2]: gf[0][1]['_grad_'],
-                              ap[3]: gf[0][1]['_g_'] + '.grid'}
-    ctx.check('C15.VA5.adjoint', 'gradient -> _interp_volume_average_adj',
-              ok, f'arguments {kws} do not map the gradient on the '
-              'computational grid back to the model grid',
-              ctx.where(sm, cs[0]))
+    rule_VA5(ctx, 'C15.VA5.adjoint')
     ctx.floor('C15.VA3.kernel', 8)
